@@ -436,6 +436,56 @@ pub fn c18(cfg: &Cfg, rep: &mut Report) {
         }
         c18_check(rep, n, &seq, &ints, case_seed);
     }
+    let big = cfg.get_usize("big_cases", if cfg.thorough { 3 } else if cfg.shard < 6 && !cfg.flag("trace_log") { 1 } else { 0 });
+    for i in 0..big {
+        if rep.too_many() {
+            break;
+        }
+        c18_big(cfg, rep, cfg.case_seed(3_000_000 + i));
+    }
+}
+
+/// a store holding well over a thousand nogoods, most of them of one size (as a long model enumeration
+/// produces them): every one of them must still be honoured
+fn c18_big(cfg: &Cfg, rep: &mut Report, case_seed: u64) {
+    let mut rng = Rng::new(case_seed ^ 0xB16);
+    // (n, dominant size): sparse enough that about half of all total assignments stay allowed, so that a
+    // nogood the store lost shows up as an assignment it no longer excludes
+    let (n, dominant) = *rng.pick(&[(11usize, 11usize), (12, 12), (12, 11), (13, 13), (13, 12), (13, 11)]);
+    let mode = rng.below(3);
+    let cover = 1usize << (n - dominant);
+    let most = ((1usize << n) * 13 / 20 / cover).min(if cfg.thorough { 2600 } else { 1600 });
+    let k = rng.range(1050, most.max(1051));
+    let mut seq: Vec<(Vec<Val>, usize)> = Vec::new();
+    let mut seen = std::collections::HashSet::new();
+    let mut guard = 0;
+    while seq.len() < k && guard < 20 * k {
+        guard += 1;
+        let d = if rng.chance(19, 20) { dominant } else { rng.range(dominant, n) };
+        let ng = random_partial(&mut rng, n, d);
+        if seen.insert(ng.clone()) || rng.chance(1, 50) {
+            seq.push((ng, mode));
+        }
+    }
+    let mut ints: Vec<Vec<Val>> = Vec::new();
+    for _ in 0..6 {
+        let d = rng.range(n / 2, n);
+        ints.push(random_partial(&mut rng, n, d));
+    }
+    // extensions of the nogoods added last (the ones a full bucket would have refused)
+    for back in 0..3 {
+        let mut v = seq[seq.len() - 1 - back].0.clone();
+        for x in v.iter_mut() {
+            if *x == VU && rng.bool() {
+                *x = if rng.bool() { VT } else { VF };
+            }
+        }
+        ints.push(v);
+    }
+    rep.count("big_stores", 1);
+    rep.max("max_nogoods_in_one_store", seq.len() as u64);
+    rep.max("max_nogoods_of_one_size_in_one_store", seq.iter().filter(|(v, _)| v.iter().filter(|x| **x != VU).count() == dominant).count() as u64);
+    c18_check(rep, n, &seq, &ints, case_seed);
 }
 
 fn c18_check(rep: &mut Report, n: usize, seq: &[(Vec<Val>, usize)], ints: &[Vec<Val>], case_seed: u64) {
